@@ -193,6 +193,9 @@ func (w *wk) runSource(cs *Case, src string, budget int, outcomePrefix string) {
 		w.st.Count("texts_compiled_and_started", 1)
 	}
 	w.st.Outcome(outcomePrefix + ":" + stage)
+	if _, rejectedByParser := err.(syntax.Error); !rejectedByParser || outcomePrefix != "text" {
+		w.st.Nontrivial++
+	}
 }
 
 func (w *wk) execText(cs *Case) {
